@@ -27,6 +27,7 @@ type Program struct {
 
 	info map[*ast.File]*packages.Package
 
+	cur     *pathCtx
 	deep    bool // deps loaded with syntax
 	allPkgs []*packages.Package
 }
@@ -46,6 +47,23 @@ type Func struct {
 
 	defs          *defInfo
 	decodeTargets map[types.Object]bool
+
+	bind    *binding // set on a per-call-site instance of an inlined helper
+	derived bool     // literal instance inside a bound helper
+	orig    *Func    // the unbound function this instance was derived from
+}
+
+type binding struct {
+	caller *Func
+	call   *ast.CallExpr // nil for method values
+	recv   ast.Expr
+}
+
+func (f *Func) origOrSelf() *Func {
+	if f.orig != nil {
+		return f.orig
+	}
+	return f
 }
 
 func (f *Func) Info() *types.Info { return f.Pkg.TypesInfo }
